@@ -361,6 +361,9 @@ func (c c09child) Exec(op string) string {
 	if len(f) >= 4 && f[0] == "c09.burst" {
 		return recoverStr(func() string { return c.burst(f[1:]) })
 	}
+	if len(f) == 1 && f[0] == "c09.replace" {
+		return recoverStr(c.replace)
+	}
 	if len(f) == 2 && f[0] == "c09.redir" {
 		return recoverStr(func() string { return c.redir(f[1]) })
 	}
@@ -667,6 +670,164 @@ func (c09child) redir(mode string) string {
 	return fmt.Sprintf("stop=%s up=%d/%d leaked=%d", res, closed, accepted, leaked)
 }
 
+// c09.replace   a Redis processor in front of one node.  A request makes the connection c1.  The host list is replaced by an equal one
+// (OnSvcAllHostReplace): the connection table is emptied and c1 is stopped — its Start is parked before its final drain (pause point
+// client.start.drain), so c1 has not yet taken itself out of the table.  A second request makes the connection c2.  c1 goes on and
+// removes "its" address from the table.  A third request, then Stop.
+//
+//	-> stop=<ok|hangs> up=<closed>/<accepted> leaked=<goroutines>
+func (c09child) replace() string {
+	baseG := runtime.NumGoroutine()
+	var mu sync.Mutex
+	accepted, closed := 0, 0
+	ln, err := net.Listen("tcp", "127.0.0.1:0")
+	if err != nil {
+		return "sockerr"
+	}
+	defer ln.Close()
+	go func() {
+		for {
+			c, err := ln.Accept()
+			if err != nil {
+				return
+			}
+			mu.Lock()
+			accepted++
+			mu.Unlock()
+			go func(c net.Conn) {
+				defer func() {
+					c.Close()
+					mu.Lock()
+					closed++
+					mu.Unlock()
+				}()
+				dec := redis.VerifNewDecoder(c, 4096)
+				for {
+					v, err := dec.Decode()
+					if err != nil {
+						return
+					}
+					rep := "-ERR not now\r\n"
+					if len(v.Array) > 0 && strings.EqualFold(string(v.Array[0].Text), "get") {
+						rep = "$1\r\nv\r\n"
+					} else if len(v.Array) > 0 && strings.EqualFold(string(v.Array[0].Text), "readonly") {
+						rep = "+OK\r\n"
+					}
+					if _, err := c.Write([]byte(rep)); err != nil {
+						return
+					}
+				}
+			}(c)
+		}
+	}()
+	reached, release := make(chan struct{}), make(chan struct{})
+	var once sync.Once
+	armed := false
+	redis.VerifSetPause(func(point string, obj interface{}) {
+		if point != "client.start.drain" {
+			return
+		}
+		mu.Lock()
+		a := armed
+		mu.Unlock()
+		if !a {
+			return
+		}
+		parked := false
+		once.Do(func() { parked = true; close(reached) })
+		if parked {
+			<-release
+		}
+	})
+	defer redis.VerifSetPause(nil)
+	ct := time.Second
+	cfg := &service.Config{
+		Listener:        &service.Listener{Address: &common.Address{Ip: "127.0.0.1", Port: 0}},
+		ConnectTimeout:  &ct,
+		Protocol:        protocol.Redis,
+		ProtocolOptions: &service.Config_RedisOption{RedisOption: &protocol.RedisOption{ReadStrategy: pbredis.ReadStrategy_MASTER}},
+	}
+	c09seq++
+	p, err := proc.New(fmt.Sprintf("verif-c09p-%d", c09seq), cfg, []*host.Host{host.New(ln.Addr().String())})
+	if err != nil {
+		return "procerr"
+	}
+	defer hx.DropScopes("service." + p.Name() + ".")
+	if err := p.Start(); err != nil {
+		return "procerr"
+	}
+	time.Sleep(2 * time.Millisecond)
+	for i := 0; i < 400 && p.Address() == ""; i++ {
+		time.Sleep(time.Millisecond)
+	}
+	cl, err := hx.DialClient(p.Address())
+	if err != nil {
+		p.Stop()
+		return "sockerr"
+	}
+	defer cl.C.Close()
+	get := func() bool {
+		cl.C.SetDeadline(time.Now().Add(2 * time.Second))
+		v, err := cl.Do([]byte("get"), []byte("k"))
+		return err == nil && string(v.Text) == "v"
+	}
+	if !get() {
+		p.Stop()
+		return "setup-failed"
+	}
+	time.Sleep(50 * time.Millisecond) // the slot refresh of the start has used the connection too
+	mu.Lock()
+	armed = true
+	mu.Unlock()
+	replaced := make(chan struct{})
+	go func() { p.OnSvcAllHostReplace([]*host.Host{host.New(ln.Addr().String())}); close(replaced) }()
+	select {
+	case <-reached:
+	case <-time.After(3 * time.Second):
+		close(release)
+		p.Stop()
+		return "not-parked"
+	}
+	ok2 := get() // makes c2
+	close(release)
+	select {
+	case <-replaced:
+	case <-time.After(3 * time.Second):
+	}
+	time.Sleep(50 * time.Millisecond)
+	ok3 := get()
+	res := "hangs"
+	stopDone := make(chan struct{})
+	go func() { p.Stop(); close(stopDone) }()
+	select {
+	case <-stopDone:
+		res = "ok"
+	case <-time.After(2500 * time.Millisecond):
+	}
+	cl.C.Close()
+	leaked := 0
+	for i := 0; i < 150; i++ {
+		mu.Lock()
+		a, c := accepted, closed
+		mu.Unlock()
+		leaked = runtime.NumGoroutine() - baseG - 1
+		if a == c && leaked <= 0 {
+			break
+		}
+		time.Sleep(10 * time.Millisecond)
+	}
+	if leaked < 0 {
+		leaked = 0
+	}
+	mu.Lock()
+	defer mu.Unlock()
+	served := "served"
+	if !ok2 || !ok3 {
+		served = "unserved"
+	}
+	return fmt.Sprintf("stop=%s up=%d/%d leaked=%d %s", res, closed, accepted, leaked, served)
+}
+
 // c09.burst <limit> <clients> <rounds>   a real TCP processor with a connection limit in front of a backend that greets and
 // holds every connection; per round all clients connect at the same moment, the connections are kept until everyone has its
 // verdict, then closed.   -> served=<per round: clients that got the greeting>
@@ -778,6 +939,7 @@ func (c *c09) Gen(r *hx.Run) {
 		for _, m := range []string{"f", "g"} {
 			r.Do("c09.redir "+m, true, "redir-full-queue")
 		}
+		r.Do("c09.replace", true, "hosts-replaced-while-a-connection-ends")
 	}
 	// bursts: many clients at the same moment against a connection limit
 	for i := 0; i < r.N(6, 120); i++ {
